@@ -124,6 +124,27 @@ Definition visit_one (incl : bool) (tp : tparams) (p : part) : slot * list info 
     let sl := if deleted && negb (tp_dry tp) then Dropped p cks' else Kept (set_chunks p cks') in
     (sl, [], [mkInfo (last_max cks) (p_key p) size (usub size tr) recs arecs (N.of_nat n) deleted]).
 
+(* ---- a concurrent writer -------------------------------------------------------------------
+   deleteJournal takes the partition exclusively (LockExclusively: nobody but the truncating visitor
+   holds it) and only THEN looks at Size().  A writer that appends [w] (acquire, write, flush, release)
+   at the latest possible moment - when deleteJournal is already asking for the lock - is therefore
+   seen by the emptiness test.  [visit_one_w] is the visitor of one partition with such a writer:
+   (what became of the partition, whether deleteJournal was reached at all = whether the writer ran). *)
+Definition visit_one_w (incl : bool) (tp : tparams) (p : part) (w : list chunk) : slot * bool :=
+  if negb (p_match p) || p_excl p then (Kept p, false) else
+  let cks := p_chunks p in
+  let size := total_size cks in
+  if size =? 0 then
+    if tp_dry tp then (Kept p, false)
+    else if deletable p (cks ++ w) then (Dropped p (cks ++ w), true)
+    else (Kept (set_chunks p (cks ++ w)), true)
+  else
+    let '(n, tr, cks') := truncate incl tp cks in
+    if (tr =? size) && negb (tp_dry tp) then
+      if deletable p (cks' ++ w) then (Dropped p (cks' ++ w), true)
+      else (Kept (set_chunks p (cks' ++ w)), true)
+    else (Kept (set_chunks p cks'), false).
+
 (* sortedInfos: insert at sort.Search(len, sortedInfos[idx].LatestTs <= ti.LatestTs); the slice is kept
    descending by LatestTs, on which the binary search is the first index where the test holds *)
 Fixpoint insert_info (ti : info) (l : list info) : list info :=
